@@ -13,9 +13,9 @@ for src in "$OUT/$PID"/*/; do
   n=$(ls -d seeded/$PID-* 2>/dev/null | sed "s#seeded/$PID-##" | sort -n | tail -1); n=$(( ${n:-0} + 1 ))
   D=seeded/$PID-$n; mkdir -p $D
   cp "$src"/patch.diff "$src"/README.md "$src"/*.rs $D/
-  python3 - "$src/meta.json" "$D/meta.json" "$OUT/$PID/$k" <<'PY'
+  python3 - "$src/meta.json" "$D/meta.json" "$OUT/$PID/$k" "${ROUND:-5}" <<'PY'
 import json,sys
-m=json.load(open(sys.argv[1])); m["staged_from"]=sys.argv[3]; m["round"]=int(sys.argv[4]) if len(sys.argv)>4 else 4
+m=json.load(open(sys.argv[1])); m["staged_from"]=sys.argv[3]; m["round"]=int(sys.argv[4]) if len(sys.argv)>4 else 5
 json.dump(m,open(sys.argv[2],"w"),indent=2)
 PY
   sed -i "s#$OUT/$PID/$k/#/verif/$D/#g; s#$OUT/$PID/$k#/verif/$D#g" $D/README.md
